@@ -457,7 +457,10 @@ def body(args, cfg, pid, tier, seed, driver, work, cmds, t0):
         by_sig.setdefault(f["signature"], []).append(f)
     violations, known_lines = [], []
     n = 0
-    has_oracle = any(f["kind"] == "oracle" for f in findings)
+    # only property failures that will be REPORTED (signature not in known-findings.txt) may stand in for
+    # a correspondence divergence; a known finding that fires on every run must not hide divergences
+    known_sigs = {k["signature"] for k in known if k["property"] == pid}
+    has_oracle = any(f["kind"] == "oracle" and f["signature"] not in known_sigs for f in findings)
     for sig, fl in by_sig.items():
         rep = min(fl, key=lambda f: len(f["case"]["ops"]))
         if rep["kind"] == "diff" and has_oracle:
